@@ -209,6 +209,20 @@ class PropertyCheck:
         results = solve_all(obls, timeout_s=timeout)
         self.obls, self.results, self.execs = obls, results, execs
         by_fn = {c.qualname: c for k, c, ex in execs if k == "fn"}
+        # vacuity: a group (loop body / function exits) all of whose paths are provably infeasible
+        groups = {}
+        for o, r in zip(obls, results):
+            if o.kind == "vacuity":
+                groups.setdefault(o.name, []).append(r["result"])
+        for g, rs in groups.items():
+            if rs and all(x == "unsat" for x in rs):
+                self.errors.append(f"vacuous proof: every path of {g} is infeasible under the stated assumptions (contradictory contract or model)")
+        self.vacuity = {"groups": len(groups), "paths": sum(len(v) for v in groups.values()),
+                        "infeasible_paths": sum(1 for v in groups.values() for x in v if x == "unsat")}
+        keep = [(o, r) for o, r in zip(obls, results) if o.kind != "vacuity"]
+        obls = [o for o, r in keep]
+        results = [r for o, r in keep]
+        self.obls, self.results = obls, results
         refuted = []
         # functions in which a model side condition is not provable: every verdict there is only "undecided"
         outside_model = {o.fn for o, r in zip(obls, results) if o.kind == "model" and r["result"] != "unsat"}
@@ -452,6 +466,7 @@ class PropertyCheck:
             "undecided": self.undecided,
             "refuted": [v for v in self.violations],
             "paths_explored": sum(ex.paths for _, _, ex in self.execs),
+            "vacuity_guard": getattr(self, "vacuity", {}),
             "cpython_cross_check": getattr(self, "cross", {}),
             "bounded_standins": [{k: v for k, v in b.items() if k != "failures"} | {"failures": len(b.get("failures", []))}
                                  for b in getattr(self, "bounded", [])],
